@@ -245,6 +245,9 @@ class Check:
     def count(self, key, n=1):
         self.counters[key] = self.counters.get(key, 0) + n
 
+    def count_get(self, key):
+        return self.counters.get(key, 0)
+
     def case(self, key=None, nontrivial=True, sample=None):
         self.evaluations += 1
         if nontrivial and key is not None:
